@@ -290,3 +290,17 @@ pub fn stratified(leaves: &[Path], r: &mut Rng, extra: usize) -> Vec<Path> {
     }
     out
 }
+
+/// Value-level view of a serialised tree: field elements are compared modulo p (the library's
+/// serialisation writes the raw, possibly non-canonical, u64 representation).
+pub fn canonical(v: &Value) -> Value {
+    match v {
+        Value::Number(n) => match n.as_u64() {
+            Some(x) if x >= P => Value::from(x - P),
+            _ => v.clone(),
+        },
+        Value::Array(a) => Value::Array(a.iter().map(canonical).collect()),
+        Value::Object(m) => Value::Object(m.iter().map(|(k, x)| (k.clone(), canonical(x))).collect()),
+        _ => v.clone(),
+    }
+}
